@@ -316,6 +316,8 @@ pub struct Contract {
     pub last_video_pts: Option<f64>,
     pub last_video_dts_tick: Option<u64>,
     pub last_video_dts_secs: Option<f64>,
+    pub first_video_dts_tick: Option<u64>,
+    pub first_audio_tick: Option<u64>,
     pub last_audio_pts: Option<f64>,
     pub last_audio_tick: Option<u64>,
     pub cursor_video: f64,
@@ -344,6 +346,8 @@ impl Contract {
             last_video_pts: None,
             last_video_dts_tick: None,
             last_video_dts_secs: None,
+            first_video_dts_tick: None,
+            first_audio_tick: None,
             last_audio_pts: None,
             last_audio_tick: None,
             cursor_video: 0.0,
@@ -386,6 +390,18 @@ impl Contract {
                 if t <= l {
                     v.push(Viol::VideoOrder);
                 } else if t - l > u32::MAX as u64 {
+                    v.push(Viol::GapTooLarge);
+                } else if let Some(f) = self.first_video_dts_tick {
+                    // the track duration (last sample repeating this gap) must fit 32 bits too
+                    if (t - f) + (t - l) > u32::MAX as u64 {
+                        v.push(Viol::GapTooLarge);
+                    }
+                }
+            }
+            if p_ok {
+                // composition offset must fit the signed 32-bit field
+                let c = tick(pts) as i128 - t as i128;
+                if c > i32::MAX as i128 || c < i32::MIN as i128 {
                     v.push(Viol::GapTooLarge);
                 }
             }
@@ -431,6 +447,10 @@ impl Contract {
                 let t = tick(pts);
                 if t > l && t - l > u32::MAX as u64 {
                     v.push(Viol::GapTooLarge);
+                } else if let Some(f) = self.first_audio_tick {
+                    if t >= l && (t - f) + (t - l) > u32::MAX as u64 {
+                        v.push(Viol::GapTooLarge);
+                    }
                 }
             }
         }
@@ -514,11 +534,17 @@ impl Contract {
         self.last_video_pts = Some(pts);
         self.last_video_dts_tick = Some(tick(dts));
         self.last_video_dts_secs = Some(dts);
+        if self.first_video_dts_tick.is_none() {
+            self.first_video_dts_tick = Some(tick(dts));
+        }
         self.accepted_video += 1;
     }
     fn accept_audio(&mut self, pts: f64) {
         self.last_audio_pts = Some(pts);
         self.last_audio_tick = Some(tick(pts));
+        if self.first_audio_tick.is_none() {
+            self.first_audio_tick = Some(tick(pts));
+        }
         self.accepted_audio += 1;
     }
 }
